@@ -114,6 +114,22 @@ theorem replicas_order_independent_partial (hashV : Nat → Nat → Nat) (nodes 
     ring_order_independent_partial hashV nodes nodes' vnodes rf hp hinj, hlen,
     (new_vnodes hashV nodes vnodes rf).2, (new_vnodes hashV nodes' vnodes rf).2]
 
+/-- **C19 (join order), for the positions the code computes**: `hash_virtual_node(node, i) =
+    sip(node as 8 LE bytes, i as 4 LE bytes)`; for every collision-free byte hash `sip`, every
+    membership, every two join orders, every vnode count: the same ring, hence (next theorem) the
+    same replica list for every key on every node.  What is assumed is a property of the 64-bit
+    hash function, not of the memberships used. -/
+theorem ring_order_independent_sip (sip : List Nat → Nat) (hs : ∀ a b, sip a = sip b → a = b)
+    (nodes nodes' : List Nat) (vnodes rf : Nat) (hp : nodes.Perm nodes') :
+    (new (vnodePos sip) nodes vnodes rf).ring = (new (vnodePos sip) nodes' vnodes rf).ring :=
+  ring_order_independent_partial (vnodePos sip) nodes nodes' vnodes rf hp (posInjective_vnodePos hs nodes vnodes)
+
+theorem replicas_order_independent_sip (sip : List Nat → Nat) (hs : ∀ a b, sip a = sip b → a = b)
+    (kb : Nat → List Nat) (nodes nodes' : List Nat) (vnodes rf key : Nat) (hp : nodes.Perm nodes') :
+    getReplicas (new (vnodePos sip) nodes vnodes rf) (keyPosOf sip kb key)
+      = getReplicas (new (vnodePos sip) nodes' vnodes rf) (keyPosOf sip kb key) :=
+  replicas_order_independent_partial (vnodePos sip) nodes nodes' vnodes rf _ hp (posInjective_vnodePos hs nodes vnodes)
+
 /-- the hypothesis is necessary: with colliding positions the stable sort keeps join order -/
 theorem ring_order_collision_counterexample :
     (new (fun _ _ => 7) [1, 2] 1 1).ring ≠ (new (fun _ _ => 7) [2, 1] 1 1).ring
